@@ -105,7 +105,7 @@ SIGS['c12'] = {
     'macros': dict({k: SIGS['default']['macros'][k] for k in
                     ('textbf', 'emph', 'textit', 'text', 'mathrm', 'frac', 'sqrt', 'section',
                      'item', 'cite', 'hat', 'alpha', 'ldots', 'foo', '&', ',', 'ensuremath',
-                     'xrightarrow')},
+                     'xrightarrow', '\\')},
                    dmac=[S('o'), S('m')], dmacb=[S('m'), S('m')]),
     'envs': dict({k: SIGS['default']['envs'][k] for k in
                   ('itemize', 'enumerate', 'equation', 'align*', 'x', 'center', 'tabular')},
